@@ -1288,6 +1288,12 @@ class Exec:
             if f is not None:
                 r = self.call(Bound(f, it), [], {})
                 return self.iterate_concrete(r, what)
+            g, _ = it.cls.lookup("__getitem__")
+            if g is None:
+                # an instance of an interpreted class (incl. the builtin exception classes) without __iter__ / __getitem__: Python raises TypeError
+                raise PyRaise(make_exc(self.interp, "TypeError", f"cannot unpack non-iterable {it.cls.name} object"))
+        if it is None or isinstance(it, (bool, int, float)):
+            raise PyRaise(make_exc(self.interp, "TypeError", f"cannot unpack non-iterable {type(it).__name__} object"))
         if hasattr(it, "_pv_iter"):
             return list(it._pv_iter(self))
         if hasattr(it, "__iter__") and not is_z3(it) and not isinstance(it, str):
@@ -2134,6 +2140,18 @@ def _cls_or(self, ex, op, other):
     return NotImplemented
 
 
+def _b_next(ex, itr, *default):
+    import itertools as _it
+    if isinstance(itr, _it.count) or hasattr(itr, "__next__"):
+        try:
+            return next(itr)
+        except StopIteration:
+            if default:
+                return default[0]
+            raise PyRaise(make_exc(ex.interp, "StopIteration", ""))
+    raise OutsideSubset(f"next() of {type(itr).__name__}")
+
+
 def _b_int(ex, x=0):
     if is_z3(x):
         if x.sort() == z3.IntSort():
@@ -2406,7 +2424,7 @@ BUILTIN_FUNCS = {
     "any": Native(_b_any, "any"), "all": Native(_b_all, "all"), "type": Native(_b_type, "type"),
     "callable": Native(_b_callable, "callable"), "hasattr": Native(_b_hasattr, "hasattr"),
     "getattr": Native(_b_getattr, "getattr"), "id": Native(_b_id, "id"), "print": Native(_b_print, "print"),
-    "iter": Native(_b_iter, "iter"), "NotImplemented": NotImplemented,
+    "iter": Native(_b_iter, "iter"), "next": Native(lambda ex, itr, *d: _b_next(ex, itr, *d), "next"), "NotImplemented": NotImplemented,
 }
 
 
